@@ -1,9 +1,9 @@
 ----------------------------- MODULE MC_Solvers -----------------------------
-(* C12: a feed-forward network is built link by link (every simple DAG over the node scope in BFS mode, one      *)
-(* canonical insertion order per link set; any insertion order in simulation mode), sealed when every neuron is   *)
-(* (with SealAtCap only when the number of links drawn at the start is reached - simulation mode)                  *)
-(* reachable from a sensor, given activation functions and an input vector, and then evaluated by five solver     *)
-(* instances, each starting from a freshly built state:                                                           *)
+(* C12: a feed-forward network is built link by link over one of the node sets in Shapes (every simple DAG in BFS *)
+(* mode, one canonical insertion order per link set; any insertion order in simulation mode, where the number of  *)
+(* links is drawn at the start), sealed when every neuron is reachable from a sensor, given an allNodes order,     *)
+(* activation functions and an input vector, and then evaluated by five solver instances, each starting from a    *)
+(* freshly built state:                                                                                           *)
 (*   std  : Network.LoadSensors; Network.ForwardSteps(d)        then ForwardSteps(1) ...                           *)
 (*   fwd  : fast LoadSensors;    fast ForwardSteps(d)           then ForwardSteps(1) ...                           *)
 (*   rec  : fast LoadSensors;    fast RecursiveSteps()          then RecursiveSteps() ...                          *)
